@@ -22,8 +22,12 @@ run = json.loads(sys.argv[2]); dirs = json.loads(sys.argv[3])
 out = []
 with contextlib.redirect_stdout(io.StringIO()):
     import warnings; warnings.simplefilter('ignore')
-    import pgradd.ThermoChem
-    from pgradd.GroupAdd.Library import GroupLibrary
+    try:
+        import pgradd.ThermoChem
+        from pgradd.GroupAdd.Library import GroupLibrary
+        broken = None
+    except Exception as exc:          # the package itself does not import in this environment
+        broken = type(exc).__name__
     def served(lib):
         for d in ('d1', 'd2'):
             if any(str(g) == 'Marker%s(Q)' % d.upper() for g in lib):
@@ -38,6 +42,9 @@ with contextlib.redirect_stdout(io.StringIO()):
             out.append({'k': 'setenv'})
             continue
         arg = e['real'] if e['op'] == 'name' else os.path.join(dirs[e['d']], e['real'], 'library.yaml')
+        if broken:
+            out.append({'k': 'error', 'cls': 'import:' + broken})
+            continue
         try:
             lib = GroupLibrary.Load(arg)
             out.append({'k': 'from', 'd': served(lib), 'n': e['n'], 'how': e['op']})
@@ -147,8 +154,8 @@ def check(ctx, rng, report):
         obs = observed[v['run'] - 1][v['pos'] - 1]
         if not v['allowed']:
             report('locate:%s' % show(run, v['pos']),
-                   'locating a library: %s -> %s; the statement (override set at start and untouched: served from there; '
-                   'otherwise from the package) allows only %s' % (show(run, v['pos']), obs, v['expect']))
+                   'locating a library: %s -> %s; the statement (a directory in the variable when names are first resolved: '
+                   'served from there; unset or empty: from the package) allows only %s' % (show(run, v['pos']), obs, v['expect']))
         elif not v['faithful']:
             nfaith += 1
             ctx.log('note (no violation): %s -> %s, the cached-directory machine of DataDir.tla gives %s'
